@@ -2,7 +2,7 @@
 ConnError.tla model-checked for the shape of the real code + every enumerated thread schedule replayed on the real code."""
 import json, os
 import vlib
-from props import common
+from props import common, corpus
 
 
 def sig(s, trace, why):
@@ -69,6 +69,10 @@ def run(tier, chk):
                                   workers=1, label="g3", simulate=sim_n, depth=dsteps + 14)
         scns += s3
     common.run_sim(chk, wd, scns, "C05_Trace", shards=12, sig_of=sig, runner="sched")
+    if tier != "quick":
+        # sequential executions too: in every scenario family of the simulator-based checks all reported connection errors agree and match the close code
+        common.run_mc(chk, wd, "H3Conn", must_cover=("Detect", "PeerClose", "Handle", "Report", "SendGoaway", "RecvGoaway"), label="h3conn-mc")
+        corpus.cross(chk, "C05", "H3Conn_Trace", env_extra={"INV": "ERR"}, sig_of=lambda s, t, w: "c05:corpus:different-errors-or-close-code")
     chk.exhaustive = False
     chk.distinct_nontrivial = len(scns)
     chk.notes["exhaustive_part"] = f"{len(s1)} schedules: every interleaving of one request task with the driver's first polls x 3 driver situations"
